@@ -237,6 +237,29 @@ example :
     marked [[0]] h = [[2], [1]] ∧ curOf [[0]] h = [[1]] := by
   decide
 
+/-- **The configured attribute is the one that counts.** The code holds model objects; what ends up
+styled depends on a model only through the value of `machine.model_attribute` at the moments the
+graph is told (`finish`, `regen`, registration): histories over objects that agree on that attribute
+give the same diagram, whatever else the models carry (e.g. an own `state` attribute while the machine
+uses `status`) — and the diagram is the one of the resolved history, to which `C16_activity`,
+`C16_activity_current` and `C16_activity_previous` apply. -/
+theorem C16_activity_attribute (o : Opts) (m : Mach) (init init' : Obj) (h h' : List ObjStep)
+    (hi : readState o.modelAttr init = readState o.modelAttr init')
+    (hh : h.map (ObjStep.resolve o.modelAttr) = h'.map (ObjStep.resolve o.modelAttr)) :
+    diagramObj o m init h none = diagramObj o m init' h' none ∧
+    diagramObj o m init h none =
+      diagram o m (stylesAfter (readState o.modelAttr init) (h.map (ObjStep.resolve o.modelAttr))) none := by
+  simp [diagramObj, stylesAfterObj, hi, hh]
+
+/-- a model that uses `state` (attribute 0) for its own data while the machine keeps its state in
+`status` (attribute 1): freshly registered in state `[0]`, the diagram styles `[0]` active -/
+example :
+    let o : Opts := { nested := false, showConds := false, showAttrs := false, modelAttr := 1 }
+    let leaf : Nat → MState := fun n => .mk n none false [] [] .none false [] []
+    let m : Mach := { states := [leaf 0, leaf 1], trans := [], initial := some [0] }
+    styledTop (diagramObj o m [(0, [[99]]), (1, [[0]])] [.regen [(0, [[99]]), (1, [[0]])]] none) 1 = [[0]] := by
+  decide
+
 /-- **Region of interest (hierarchical).** In the ROI view: every active state and every ancestor of
 one (`roiActive`) that is a state of the machine is declared; every transition whose source is
 active is named on its edge line; and its source and target are declared when they are states of the
